@@ -74,6 +74,8 @@ def _copy_widget_options(options):
   except ValueError:
     # widgetOptions are not always a valid json value (especially in tests)
     return options
+  if not isinstance(options, dict):
+    return json.dumps(options)
   return json.dumps({k: v for k, v in options.items() if k != "rulesOptions"})
 
 
